@@ -54,14 +54,26 @@ Proof. intros i W. assert (W' := W). destruct W' as (A & B & C & D & E). repeat 
 Lemma fis_inf_fin : forall x, fin x -> fis_inf x = false.
 Proof. intros [ | | | ]; unfold fin; simpl; congruence. Qed.
 
+Lemma fi_rough_mid_nnan : forall i, wf i -> nnan (fi_rough_mid i).
+Proof. intros i W. destruct W as (A & B & C & D & E). unfold fi_rough_mid.
+  rewrite (fis_inf_fin _ A), (fis_inf_fin _ B). simpl.
+  apply fadd_nnan_r; auto.
+  apply fdiv_nnan. apply fsub_nnan; auto using fin_nnan.
+  unfold fi_mid_div_bits. apply fin_of_bits_two. unfold fi_mid_div_bits. rewrite R_of_bits_two; lra. Qed.
+
 Lemma fi_mid_inside : forall i, wf i -> exists r, fi_mid i = Some r /\ inside i r.
 Proof. intros i W. assert (W' := W). destruct W' as (A & B & C & D & E). unfold fi_mid.
   destruct (fi_is_empty i). { eexists; split; eauto using inside_min. }
   destruct (fi_is_fixed i). { eexists; split; eauto using inside_min. }
-  rewrite (fis_inf_fin _ A), (fis_inf_fin _ B). simpl.
-  apply fi_round_inside; auto. apply fadd_nnan_r; auto.
-  apply fdiv_nnan. apply fsub_nnan; auto using fin_nnan.
-  unfold fi_mid_div_bits. apply fin_of_bits_two. unfold fi_mid_div_bits. rewrite R_of_bits_two; lra. Qed.
+  destruct (fi_round_inside i (fi_rough_mid i) W (fi_rough_mid_nnan i W)) as (m & -> & Hm).
+  destruct (fi_split_ok i m). { eauto. }
+  apply fclamp_inside; auto. now apply wf_le. now apply fi_rough_mid_nnan. Qed.
+
+Lemma fi_mid_prefix_inside : forall i, wf i -> exists r, fi_mid_prefix i = Some r /\ inside i r.
+Proof. intros i W. unfold fi_mid_prefix.
+  destruct (fi_is_empty i). { eexists; split; eauto using inside_min. }
+  destruct (fi_is_fixed i). { eexists; split; eauto using inside_min. }
+  apply fi_round_inside; auto. now apply fi_rough_mid_nnan. Qed.
 
 (* ================================================================ remove_below / remove_above *)
 
